@@ -706,3 +706,62 @@ Q(name="e2_migrate", props=["C15"], func=r"connection/mod\.rs:245:1[^>]*>::migra
   functions=["Connection::migrate"], pre=mig_pre, post=mig_post,
   bounds="every connection state and remote address; PathData::{new,from_previous} (covered by path_from_previous), pto, the RNG, timer arithmetic opaque; shared-reference arguments are read-only",
   replay=("conn_migrate_native", lambda m: [dict(old_challenged=a, old_pending=b, v4=v) for a in (0, 1) for b in (0, 1) for v in (0, 1)]))
+
+
+# ------------------------------------------------------------------ C08: local close / kill - timers, state, exactly one Drained report
+def _st(c):
+    return "*_1.%d#discr" % c.field("connection/mod.rs", "Connection", "state")
+
+
+def ci_pre(c):
+    return ule(c.inp(_st(c), I64), bv(4))
+
+
+def ci_post(c, p):
+    st = p.p.state
+    names = [x[0] for x in st.calls]
+    closed0 = "(bvuge %s %s)" % (c.inp(_st(c), I64), bv(2))          # Closed | Draining | Drained
+    cc = [i for i, n in enumerate(names) if re.search(r"close_common$", n)]
+    sc = [i for i, n in enumerate(names) if re.search(r"set_close_timer$", n)]
+    if not cc and not sc:
+        # closing a connection that is already closed changes nothing: the running close timer is not re-armed
+        ck = "*_1.%d" % c.field("connection/mod.rs", "Connection", "close")
+        return and_(closed0, eq(c.ex.read_key(st, _st(c), I64).t, c.inp(_st(c), I64)), eq(c.ex.read_key(st, ck, BOOL).t, c.inp(ck, BOOL)))
+    if len(cc) != 1 or len(sc) != 1 or cc[0] > sc[0]:
+        return "false"       # every other timer is stopped first, THEN the close timer is armed (close_common stops all timers)
+    return and_(not_(closed0), eq(c.ex.read_key(st, _st(c), I64).t, bv(2)),
+                c.ex.read_key(st, "*_1.%d" % c.field("connection/mod.rs", "Connection", "close"), BOOL).t)
+
+
+Q(name="e2_close_inner", props=["C08"], func=r"connection/mod\.rs:245:1[^>]*>::close_inner$",
+  inline=[r"State::is_closed$"], functions=["Connection::close_inner", "State::is_closed (inlined)"], pre=ci_pre, post=ci_post,
+  bounds="every lifecycle state; close_common / set_close_timer opaque: their order, and that they do not run at all on an already closed connection, is what is decided",
+  replay=("conn_close_inner_native", lambda m: [dict(state=s) for s in range(0, 4)]))
+
+
+def kill_post(c, p):
+    st = p.p.state
+    names = [x[0] for x in st.calls]
+    cc = [i for i, n in enumerate(names) if re.search(r"close_common$", n)]
+    pb = [x for x in st.calls if re.search(r"push_back", x[0])]
+    if len(cc) != 1 or len(pb) != 1:
+        return "false"
+    ev = c.ex.enums["EndpointEventInner"].index("Drained")
+    arg = pb[0][1][1]
+    key = arg[1] if arg[0] in ("agg", "ref") else None
+    if key is None:
+        return "false"
+    return and_(eq(c.ex.read_key(st, _st(c), I64).t, bv(4)), eq(c.ex.read_key(pb[0][3] and _Snap(st, pb[0][3]) or st, key + "#discr", I64).t, bv(ev)))
+
+
+class _Snap:
+    """state view with the store as it was right before an opaque call (arguments moved into the call)"""
+    def __init__(self, st, store):
+        self.__dict__.update(st.__dict__)
+        self.store = dict(store)
+
+
+Q(name="e2_kill", props=["C08"], func=r"connection/mod\.rs:245:1[^>]*>::kill$",
+  functions=["Connection::kill"], pre=lambda c: "true", post=kill_post,
+  bounds="every connection state and error: all timers are stopped, the state becomes Drained and exactly one Drained event is queued for the endpoint",
+  replay=("conn_kill_native", lambda m: [dict(state=s) for s in range(0, 3)]))
